@@ -33,7 +33,8 @@ CHECK_DEADLOCK FALSE
         tp = os.path.join(ctx.scratch, "trace%d.ndjson" % k)
         traces.append(tp)
         argvs.append([drv, "--script", sp, "--out", tp, "--scratch", os.path.join(ctx.scratch, "st%d" % k),
-                      "--random", str(25 if quick else 200), "--len", str(14 if quick else 24), "--salt", str(k)])
+                      "--random", str(25 if quick else 200), "--len", str(14 if quick else 24), "--salt", str(k)]
+                     + (["--scripted"] if k == 0 else []))
     outs = ctx.run_parallel(argvs)
     blocks = sum(int(o.split("blocks=")[1].split()[0]) for o in outs)
     nh = sum(int(o.split("histories=")[1].split()[0]) for o in outs)
@@ -55,6 +56,12 @@ CHECK_DEADLOCK FALSE
                     feats["stake-locked"] += 1
                 if e["kind"] == "Mature" and e["matured"]:
                     feats["refund-matured"] += 1
+                if e["kind"].startswith("ConUnstake") and e["ok"]:
+                    feats["contract-unstake"] += 1
+                if e["kind"].startswith("ConAddStake") and e["lockTokens"] > 0:
+                    feats["contract-stake-locked"] += 1
+                if e["kind"] == "Mature" and e["matured"] and e.get("expectMatured"):
+                    feats["payout-equals-released-stake-judged"] += 1
                 if e["kind"] == "MatureRewards" and e["matured"]:
                     feats["reward-matured"] += 1
                 if len(samples) < 4 and e["kind"] in ("SelfDestruct", "CallRevert", "Stake", "Mature") and e["ok"]:
@@ -68,7 +75,8 @@ CHECK_DEADLOCK FALSE
                 raise Inconclusive("vacuity: no successful transaction with an inner %s naming %s of the contract's balance" % (way, x))
     if not any(k.startswith("CallExplicit.") and k.endswith(".self") and ok for (k, ok) in kinds):
         raise Inconclusive("vacuity: no contract called itself with value")
-    for f in ("burn", "stake-locked", "refund-matured", "reward-matured"):
+    for f in ("burn", "stake-locked", "refund-matured", "reward-matured", "contract-unstake", "contract-stake-locked",
+              "payout-equals-released-stake-judged"):
         if feats[f] == 0:
             raise Inconclusive("vacuity: no block with %s" % f)
     coverage = {
